@@ -142,6 +142,24 @@ func (p *parser) processDeclarations(rules []css_ast.Rule, composesContext *comp
 			wouldClipColor = &wouldClipColorFlag
 		}
 
+		// Logical properties such as "margin-block-start" set the same computed
+		// values as the physical ones, so declarations of the physical properties
+		// must not be merged or moved across them
+		if p.options.minifySyntax {
+			switch {
+			case strings.HasPrefix(decl.KeyText, "margin-block") || strings.HasPrefix(decl.KeyText, "margin-inline"):
+				margin.sides = [4]boxSide{}
+			case strings.HasPrefix(decl.KeyText, "padding-block") || strings.HasPrefix(decl.KeyText, "padding-inline"):
+				padding.sides = [4]boxSide{}
+			case strings.HasPrefix(decl.KeyText, "inset-block") || strings.HasPrefix(decl.KeyText, "inset-inline"):
+				inset.sides = [4]boxSide{}
+			case strings.HasPrefix(decl.KeyText, "border-start-") || strings.HasPrefix(decl.KeyText, "border-end-"):
+				if strings.HasSuffix(decl.KeyText, "-radius") {
+					borderRadius.corners = [4]borderRadiusCorner{}
+				}
+			}
+		}
+
 		switch decl.Key {
 		case css_ast.DComposes:
 			// Only process "composes" directives if we're in "local-css" or
